@@ -69,6 +69,10 @@ def _targets():
     T2 = Rule.parse_annotation(typing.Tuple[int, str])
     OptInt = Rule.parse_annotation(typing.Optional[int])
     UnionIS = Rule.parse_annotation(typing.Union[int, str])
+    UnionIF = Rule.parse_annotation(typing.Union[int, float])
+    UnionFD = Rule.parse_annotation(typing.Union[float, Decimal])
+    UnionBIS = Rule.parse_annotation(typing.Union[bool, int, str])
+    OptDate = Rule.parse_annotation(typing.Optional[dt.date])
     LInt = Rule.parse_annotation(typing.List[int])
     tg = [
         ("NoneType", type(None), "null"), ("bool", bool, "boolean"), ("int", int, "number"), ("float", float, "number"),
@@ -80,7 +84,8 @@ def _targets():
         ("Mixed", V.Mixed, None), ("NameVal", NameVal, None), ("SEnum", SEnum, None),
         ("MyInt", V.MyInt, "number"), ("MyStr", V.MyStr, "string"), ("MyList", V.MyList, "array"), ("MyDict", V.MyDict, "object"),
         ("Tuple[int,str]", T2, "rule:tuple2"), ("Schema(a:int,b:str)", S12, "rule:schema"),
-        ("Optional[int]", OptInt, "rule"), ("Union[int,str]", UnionIS, "rule"), ("List[int]", LInt, "rule"),
+        ("Optional[int]", OptInt, "rule"), ("Union[int,str]", UnionIS, "rule"), ("Union[int,float]", UnionIF, "rule"),
+        ("Union[float,Decimal]", UnionFD, "rule"), ("Union[bool,int,str]", UnionBIS, "rule"), ("Optional[date]", OptDate, "rule"), ("List[int]", LInt, "rule"),
         ("Mapping", cabc.Mapping, None), ("Sequence", cabc.Sequence, None),
     ]
     _state["targets"] = tg
@@ -321,15 +326,45 @@ def promise_ndl(v, tname, t, r):
     return None
 
 
-def mechanism(tname, t, group, v, o, base):
+def _stage_prediction(t, v, fl):
+    """(accepted, value) the documented union stage order yields for flags fl, from arguments evaluated alone"""
+    from utype import Options, type_transform
+
+    ndl, ncast = bool(fl.get("no_data_loss")), bool(fl.get("no_explicit_cast"))
+    stages = []
+    if not (ndl and ncast):
+        stages.append(dict(fl, no_data_loss=True, no_explicit_cast=True))
+    if not ndl and not ncast:
+        stages.append(dict(fl, no_data_loss=True))
+    stages.append(dict(fl))
+    try:
+        comb = t if getattr(t, "combinator", None) else t.resolve_combined_origin()
+        if comb is None or comb.combinator != "|":
+            return None
+        for st in stages:
+            for a in comb.args:
+                o = run(lambda: type_transform(v, a, options=Options(**st)))
+                if o.ok:
+                    return True, o.value
+    except Exception:
+        return None
+    return False, None
+
+
+def mechanism(tname, t, group, v, o, base, fl=None):
     """narrow structural keys for the listed findings (a); None = not one of them"""
     if base.ok and same(o.value, base.value):
         return None
     if isinstance(t, type) and issubclass(t, enum.Enum) and isinstance(v, str) and v in t.__members__ \
             and any(m.value == v and m.name != v for m in t):
         return "C12/agreement/enum-input-is-a-member-name-and-another-members-value"
-    if tname.startswith("Union[") and base.ok and type(o.value) is not type(base.value):
-        return "C12/agreement/union-stages-pick-a-different-argument"
+    if tname.startswith("Union[") and base.ok and type(o.value) is not type(base.value) and fl is not None:
+        # listed finding = the documented stage order itself (strict -> no-loss -> as given) makes the flagged
+        # and the default run pick different arguments.  Only when the flagged result IS what the stage order
+        # predicts from the arguments evaluated alone; anything else is a new violation.
+        pred = _stage_prediction(t, v, fl)
+        if pred is not None and pred[0] and same(pred[1], o.value):
+            return "C12/agreement/union-stages-pick-a-different-argument"
     if _sized_multi(v) == 1 and isinstance(list(v)[0], cabc.Mapping) and len(list(v)[0]) == 2 \
             and (group in ("object", "rule:schema") or t is cabc.Mapping):
         return "C12/dict-from-list-of-one-two-key-mapping"
@@ -387,7 +422,7 @@ def run_case(case, ctx):
             continue
         decided = True
         sig = (tname, vclass, fname, "a")
-        mech = mechanism(tname, t, group, v, o, base)
+        mech = mechanism(tname, t, group, v, o, base, dict(FLAGS)[fname])
         if mech:
             ctx.violation(mech, f"{tname} <- {vr} ({vclass}): {fname} -> {o!r}; default -> {base!r}", wit, sig=sig)
         elif not base.ok:
